@@ -458,6 +458,11 @@ pub fn derive_session_key(
     let z = kdf(hash, shared_secret, alg_sym.key_size(), &param)?;
 
     // Perform AES Key Unwrap
+    ensure!(
+        encrypted_key_len >= encrypted_session_key.len(),
+        "invalid encrypted_key_len {}",
+        encrypted_key_len
+    );
     let mut encrypted_session_key_vec = vec![0; encrypted_key_len];
     encrypted_session_key_vec[(encrypted_key_len - encrypted_session_key.len())..]
         .copy_from_slice(encrypted_session_key);
